@@ -44,15 +44,55 @@ theorem wf_init' (cap : Nat) (h : 1 ≤ cap) : WF (init cap) ∧ (init cap).n = 
   have hn : (init cap).n = cap := by simp [init, Img.n]
   refine ⟨wf_allzero (by rw [hn]; rfl) (by omega) rfl rfl (fun i hi => sl_init cap i (by omega)), hn⟩
 
-theorem initMem_eq (memsize : Nat) (img : Img) (h : initMem memsize = some img) :
+/-- the constructor's `int maxslots` is the number of slots that fit, as long as the region is
+    at least as large as the header and smaller than 2^31 slots (no `size_t` wrap, no `int` truncation) -/
+theorem ctorMaxslots_eq (memsize : Nat) (h1 : sizeofHeader ≤ memsize) (h2 : memsize < 2 ^ 31 * sizeofSlot) :
+    ctorMaxslots memsize = (((memsize - sizeofHeader) / sizeofSlot : Nat) : Int) := by
+  unfold ctorMaxslots
+  have hH : sizeofHeader = 12 := rfl
+  have hS : sizeofSlot = 84 := rfl
+  simp only [hH, hS] at h1 h2 ⊢
+  have e1 : (memsize + 18446744073709551616 - 12) % 18446744073709551616 = memsize - 12 := by omega
+  rw [e1]
+  have e2 : (memsize - 12) / 84 % 4294967296 = (memsize - 12) / 84 := by omega
+  rw [e2]
+  have e3 : (memsize - 12) / 84 < 2147483648 := by omega
+  rw [if_pos e3]
+
+theorem initMem_eq (memsize : Nat) (hsz : memsize < 2 ^ 31 * sizeofSlot) (img : Img) (h : initMem memsize = some img) :
     img = init ((memsize - sizeofHeader) / sizeofSlot) ∧ 1 ≤ (memsize - sizeofHeader) / sizeofSlot := by
   unfold initMem at h
-  simp only [] at h
   split at h
   · cases h
   · rename_i hc
+    have hbig : sizeofHeader ≤ memsize := by
+      have : sizeofHeader = 12 := rfl
+      have : sizeofHandle = 128 := rfl
+      omega
+    have hm := ctorMaxslots_eq memsize hbig hsz
+    rw [hm] at hc h
     cases h
     exact ⟨rfl, by omega⟩
+
+/-- a region that is too small (at most `sizeof(qhasharr_t)` bytes, in particular smaller than the
+    header, where the unsigned subtraction wraps) is refused -/
+theorem initMem_small (memsize : Nat) (h : memsize ≤ sizeofHandle) : initMem memsize = none := by
+  unfold initMem; rw [if_pos (Or.inr h)]
+
+/-- a region of more than `sizeof(qhasharr_t)` bytes (and fewer than 2^31 slots) is accepted -/
+theorem initMem_large (memsize : Nat) (h : sizeofHandle < memsize) (hsz : memsize < 2 ^ 31 * sizeofSlot) :
+    initMem memsize = some (init ((memsize - sizeofHeader) / sizeofSlot)) := by
+  have hH : sizeofHeader = 12 := rfl
+  have hS : sizeofSlot = 84 := rfl
+  have hA : sizeofHandle = 128 := rfl
+  have hm := ctorMaxslots_eq memsize (by omega) hsz
+  unfold initMem
+  have hc : ¬ (ctorMaxslots memsize < 1 ∨ memsize ≤ sizeofHandle) := by
+    rw [hm]
+    simp only [hH, hS, hA] at h ⊢
+    omega
+  rw [if_neg hc, hm]
+  rfl
 
 theorem clear_wf {img : Img} (hw : WF img) : ∃ img', clear img = .ok img' ∧ WF img' ∧ img'.n = img.n := by
   unfold clear
